@@ -58,6 +58,11 @@ def gen_pop_case(rng, crnc_bias=0.5, metrics=METRICS):
         cf = rng.choice(["cd", "ce", "mnn", "2nn"])     # compiled pcd with 3+ objectives: known finding, exercised by C13 in isolation
     r = rng.random()
     k = 1 if r < 0.1 else n if r < 0.2 else rng.randint(1, n)
+    if rng.random() < 0.15:
+        # the same population in other units: objectives and constraint values multiplied by powers of two (all comparisons are preserved exactly)
+        kf = 2.0 ** rng.choice([-80, -40, 60]); kg = 2.0 ** rng.choice([-60, -20, 40])
+        F = [[x * kf for x in r] for r in F]; G = [[x * kg for x in r] for r in G]; H = [[x * kg for x in r] for r in H]
+        style = style + "-rescaled"
     case = {"F": F, "G": G, "H": H, "n_survive": k, "cls": cls, "cf": cf, "style": style, "feasmode": feasmode, "seed": rng.randrange(2 ** 31)}
     if rng.random() < 0.25:
         case["prime"] = rng.choice(["other", "same"])     # the operator object has served another (all-feasible) / the same population before
